@@ -31,6 +31,9 @@ use verif_harness::*;
 #[derive(Clone, Debug, PartialEq, Eq)]
 struct Front {
     pos: i128,
+    /// hostname as configured (what AddHttpFrontend carries)
+    raw_host: Vec<u8>,
+    /// its ASCII form (idna::domain_to_ascii; = raw_host on the plain family): what the router stores
     host: Vec<u8>,
     kind: i128,
     pval: Vec<u8>,
@@ -44,7 +47,8 @@ impl Front {
     fn parse(a: &[Tok]) -> Front {
         Front {
             pos: a[0].n(),
-            host: a[1].b().to_vec(),
+            raw_host: a[1].b().to_vec(),
+            host: real_idna(a[1].b()).unwrap_or_else(|| a[1].b().to_vec()),
             kind: a[2].n(),
             pval: a[3].b().to_vec(),
             method: if a[4].n() == 1 { Some(a[5].b().to_vec()) } else { None },
@@ -60,7 +64,7 @@ impl Front {
         HttpFrontend {
             cluster_id: self.cluster.as_ref().map(|c| s(c)),
             address: "127.0.0.1:80".parse().unwrap(),
-            hostname: s(&self.host),
+            hostname: s(&self.raw_host),
             path: PathRule { kind: self.kind as i32, value: s(&self.pval) },
             method: self.method.as_ref().map(|m| s(m)),
             position: match self.pos {
@@ -96,6 +100,29 @@ impl Front {
             (None, 2, false)
         }
     }
+}
+
+/// idna::domain_to_ascii of a hostname (None = error)
+fn real_idna(h: &[u8]) -> Option<Vec<u8>> {
+    idna::domain_to_ascii(&String::from_utf8_lossy(h)).ok().map(|x| x.into_bytes())
+}
+
+/// the idna rows of a case: every configured hostname on which idna is not the identity
+fn compute_idna(case: &Case) -> Vec<(Vec<u8>, Vec<u8>, bool)> {
+    let mut hosts: BTreeSet<Vec<u8>> = BTreeSet::new();
+    for op in &case.ops {
+        if op.name == "add" || op.name == "del" {
+            hosts.insert(op.args[1].b().to_vec());
+        }
+    }
+    hosts
+        .into_iter()
+        .filter_map(|h| match real_idna(&h) {
+            Some(a) if a == h => None,
+            Some(a) => Some((h, a, true)),
+            None => Some((h, vec![], false)),
+        })
+        .collect()
 }
 
 fn s(b: &[u8]) -> String {
@@ -222,6 +249,9 @@ fn tables_mode(inp: &str, outp: &str) {
     let mut w = std::io::BufWriter::new(std::fs::File::create(outp).unwrap());
     for c in &cases {
         writeln!(w, "case {}", c.id).unwrap();
+        for (h, a, ok) in compute_idna(c) {
+            writeln!(w, "op idna {} {} {}", tb(&h), tb(&a), ok as i32).unwrap();
+        }
         for (src, ok, ms) in compute_table(c) {
             write!(w, "op rx {} {}", tb(&src), ok as i32).unwrap();
             for m in ms {
@@ -230,7 +260,7 @@ fn tables_mode(inp: &str, outp: &str) {
             writeln!(w).unwrap();
         }
         for op in &c.ops {
-            if op.name == "rx" {
+            if op.name == "rx" || op.name == "idna" {
                 continue;
             }
             write!(w, "op {}", op.name).unwrap();
@@ -474,13 +504,20 @@ fn permutations(n: usize) -> Vec<Vec<usize>> {
 }
 
 fn run(case: &Case, out: &mut Out) {
-    // hostnames on which idna::domain_to_ascii is not the identity are outside the model
-    for op in &case.ops {
-        if op.name == "add" || op.name == "del" {
-            let h = op.args[1].b();
-            if !h.iter().all(|c| c.is_ascii() && !c.is_ascii_uppercase() && *c > 0x20 && *c != 0x7f) {
-                out.note("invalid-case: hostname outside the lower-case ASCII family");
-            }
+    // the idna rows must be exactly what the real idna crate answers; a /regex/ hostname on which idna is not the
+    // identity is outside the model (Run.v applies idna ahead of the model, which is only faithful when the
+    // '/'-test and the regex source are unaffected)
+    let irows = compute_idna(case);
+    let given_i: Vec<(Vec<u8>, Vec<u8>, bool)> = case.ops.iter().filter(|o| o.name == "idna").map(|o| (o.args[0].b().to_vec(), o.args[1].b().to_vec(), o.args[2].n() == 1)).collect();
+    if given_i != irows {
+        out.note("invalid-case: idna rows differ from the idna crate's answers");
+    }
+    for (h, a, ok) in &irows {
+        if h.contains(&b'/') {
+            out.note("invalid-case: regex hostname on which idna is not the identity");
+        }
+        if *ok && real_idna(a).as_deref() != Some(&a[..]) {
+            out.note("invalid-case: idna is not idempotent on this hostname");
         }
     }
     // the rx rows must be exactly what the real regex crate answers
@@ -513,7 +550,7 @@ fn run(case: &Case, out: &mut Out) {
     for op in &case.ops {
         let a = &op.args;
         match op.name.as_str() {
-            "rx" => out.obs(&[]),
+            "rx" | "idna" => out.obs(&[]),
             _ if dead && op.name != "permcheck" => out.obs(&[ts("skipped")]),
             "add" | "del" => {
                 let f = Front::parse(a);
